@@ -95,10 +95,10 @@ func ctAcc(degf func(d0, d1 int) int, scale func(e *Env, in []interface{}) rlwe.
 	}}
 }
 
-func degMax(a, b int) int  { return maxInt(a, b) }
-func degSum(a, b int) int  { return a + b }
-func degOp0(a, b int) int  { return a }
-func degOne(a, b int) int  { return 1 }
+func degMax(a, b int) int { return maxInt(a, b) }
+func degSum(a, b int) int { return a + b }
+func degOp0(a, b int) int { return a }
+func degOne(a, b int) int { return 1 }
 func degRelin(a, b int) int {
 	if a == 1 && b == 1 {
 		return 1
